@@ -185,7 +185,7 @@ def case_paired(ctx, i):
     from tenpy.linalg import np_conserved as npc
     from vf import gen
     rng = ctx.rng
-    which = i % 6
+    which = i % 8
     out = {}
     try:
         if which == 0:
@@ -228,6 +228,35 @@ def case_paired(ctx, i):
         elif which == 4:
             bs = [int(x) for x in rng.integers(1, 4, size=int(rng.integers(0, 5)))]
             out = {'fn': '_map_blocks', 'args': bs, 'res': np.asarray(C._map_blocks(np.array(bs, dtype=np.intp))).tolist()}
+        elif which in (6, 7):
+            # the paired linear-algebra kernels on the dtypes that do NOT take the BLAS path, with different sets of stored blocks
+            ci = gen.rand_chinfo(rng, max_q=1)
+            # few distinct charges, several blocks per charge: many blocks are allowed by the charge rule
+            l0 = gen.rand_leg(rng, ci, max_blocks=5, max_bs=2, window=1, kind=str(rng.choice(['unsorted', 'dup_nonadjacent', 'sorted_dup'])))[0]
+            legs = [l0, l0.conj()]
+            dt = str(rng.choice(['float32', 'complex64', 'int64', 'float64', 'complex128'], p=[0.3, 0.25, 0.25, 0.1, 0.1]))
+            qt = np.zeros(ci.qnumber, dtype=np.int64)
+            a = gen.rand_array(rng, legs, dtype=dt, qtotal=qt, labels=['l%d' % k for k in range(len(legs))], fill='missing')[0]
+            # `other` stores (nearly) all blocks, so that some exist only in `other`; same or narrower type keeps the result type
+            b = gen.rand_array(rng, legs, dtype=dt if rng.random() < 0.7 else {'complex64': 'float32', 'int64': 'int64'}.get(dt, dt),
+                               qtotal=qt, labels=['l%d' % k for k in range(len(legs))], fill='all' if rng.random() < 0.7 else 'missing')[0]
+            if a.stored_blocks > 1:
+                # make sure some blocks exist only in `other` (the state ipurge_zeros would leave behind)
+                keep = sorted(int(x) for x in rng.permutation(a.stored_blocks)[:int(rng.integers(0, a.stored_blocks))])
+                a._data = [a._data[k] for k in keep]
+                a._qdata = np.ascontiguousarray(a._qdata[keep])
+            b0 = b.to_ndarray().copy()
+            pre = [3, -2, 1, -1][int(rng.integers(4))] if dt == 'int64' and rng.random() < 0.7 else \
+                [3, -2, 0.5, 1.5 - 0.5j, 1, -1][int(rng.integers(6))]
+            if which == 6:
+                r = a.iadd_prefactor_other(pre, b)
+                name = 'iadd_prefactor_other'
+            else:
+                r = a.iscale_prefactor(pre)
+                name = 'iscale_prefactor'
+            out = {'fn': name, 'args': [dt, str(b.dtype), repr(pre)], 'res': np.round(r.to_ndarray().astype(complex), 5).tolist(),
+                   'dtype': str(r.dtype), 'other_unchanged': bool(np.array_equal(b.to_ndarray(), b0)),
+                   'blocks': sorted(map(tuple, np.asarray(r._qdata).tolist()))}
         else:
             ci = gen.rand_chinfo(rng)
             legs = [gen.rand_leg(rng, ci, max_blocks=3, max_bs=2)[0] for _ in range(int(rng.integers(1, 4)))]
